@@ -180,6 +180,22 @@ def check_kv(ctx, chk, db, W, ty, adt, ents, paths, fb):
     is_enum = adt["kind"] == "enum"
     if ty not in MIRW:
         MIRW[ty] = T.mir_writer_args(ctx, ty)
+    lit_seen = {}
+    try:
+        _check_kv(ctx, chk, db, W, ty, adt, ents, paths, fb, is_enum, lit_seen)
+    finally:
+        # X7 exhaustiveness: a field read by matching literals must accept every variant its type can print
+        for (key, k, base, site), seen in sorted(lit_seen.items()):
+            a2 = adt_of(db, base)
+            if a2 is None:
+                continue
+            allv = {v["name"] for v in a2["variants"]}
+            chk.require(seen >= allv, "X7", "%s:%s:exhaustive" % (key, k), site,
+                        "key %s of %s is read by literal match; %s::%s can be written but no parser path accepts it" % (
+                            k, key, base, "/".join(sorted(allv - seen))))
+
+
+def _check_kv(ctx, chk, db, W, ty, adt, ents, paths, fb, is_enum, lit_seen):
     for e in ents:
         variant = T.arm_variant(e.arm) if is_enum else None
         bind = T.arm_bindings(e.arm)
@@ -250,6 +266,7 @@ def check_kv(ctx, chk, db, W, ty, adt, ents, paths, fb):
                             # literal match: the accepted literal must be what the field type's Display prints for that variant
                             wl = {T.arm_variant(x.arm): x.literal_text() for x in W.by_type.get(base, [])}
                             lits2 = [l for l, o in p.eq_true]
+                            lit_seen.setdefault((key, k, base, e.callsite), set()).add(term[2])
                             chk.require(wl.get(term[2]) in lits2, "X7", "%s:%s:%s" % (key, k, term[2]), e.callsite,
                                         "%s::%s prints %r but this path accepted %s" % (base, term[2], wl.get(term[2]), lits2), describe_path(p.r))
                         else:
@@ -606,3 +623,31 @@ def check_match_result(ctx, chk, db, W, adt, ents, paths, allres, fb):
     for f in ("order_id", "remaining_quantity", "is_complete"):
         ok5, why5 = sep_safe(db, W, ftys[f])
         chk.require(ok5, "X5", "MatchResult:%s" % f, ents[0].callsite, why5)
+
+
+def check_order_id_text_pair(ctx, chk, rid):
+    """the Display/FromStr pair of OrderId, checked under another property's rule id (OrderId's JSON form *is* its text
+    form: Serialize writes to_string(), Deserialize reads through from_str)"""
+    class Relabel:
+        def __init__(self, chk, rid):
+            self.chk, self.rid = chk, rid
+
+        def require(self, cond, rule, key, site="", detail="", path=None):
+            return self.chk.require(cond, self.rid, "text:" + rule + ":" + key, site, detail, path)
+
+        def fail(self, rule, key, site="", detail="", path=None, undecided=False):
+            return self.chk.fail(self.rid, "text:" + rule + ":" + key, site, detail, path, undecided=undecided)
+
+        def ok(self, rule, key, site="", detail=""):
+            return self.chk.ok(self.rid, "text:" + rule + ":" + key, site, detail)
+
+        def __getattr__(self, n):
+            return getattr(self.chk, n)
+    db = ctx.db
+    W = T.Writers(db)
+    fb = db.method("OrderId", "from_str", trait="FromStr")
+    paths, allres = T.reader_paths(ctx, fb)
+    rc = Relabel(chk, rid)
+    if not rc.require(len(paths) >= 1 and "OrderId" in W.by_type, "X0", "OrderId:tables", fb.span, "no reader/writer table for OrderId"):
+        return
+    check_order_id(ctx, rc, db, W, W.by_type["OrderId"], paths, fb)
